@@ -509,6 +509,16 @@ def special_programs():
     out.append(('aliasing-inside-one-argument', "def first_grows(pair):\n    pair[0].append(9)\n    return len(pair[1])\ndef same_inside(d):\n    return d['a'] is d['b']\n"
                 "def depth(a):\n    return 1 if a[1] is a else 0\n",
                 [('first_grows', [ALIASED_ARGS[3][1], '[[[1], [1]]]']), ('same_inside', [ALIASED_ARGS[4][1]]), ('depth', [ALIASED_ARGS[5][1]])]))
+    out.append(('aliasing-across-arguments-inside-them', "def inner_same(x, y):\n    return x[0] is y[0]\ndef grow_inner(x, y):\n    x[0].append(1)\n    return len(y[0])\n"
+                "def d_same(d, l):\n    return d['k'] is l[0]\ndef deep(x, y):\n    x[0][0].append(7)\n    return y[1]['q']\n",
+                [('inner_same', ["(lambda a: [[a], [a]])([])", "(lambda a: [[a], [a]])([1, 2])", "(lambda a: [[a], (a,)])([3])", "[[[1]], [[1]]]", "kw:(lambda a: ([[a]], {'y': [a]}))([1])"]),
+                 ('grow_inner', ["(lambda a: [[a], [a]])([])", "(lambda a: [[a, 5], (0, a)[1:]])([2])", "[[[]], [[]]]"]),
+                 ('d_same', ["(lambda a: [{'k': a}, [a]])([1])", "(lambda a: [{'k': a}, [a]])({'z': 1})", "[{'k': [1]}, [[1]]]"]),
+                 ('deep', ["(lambda a: [[[a]], [0, {'q': a}]])([1])"])]))
+    out.append(('own-variable-named-like-a-builtin-type', "set = 5\nrange = 'r'\nfrozenset = None\nbytearray = 1\ndef kind(v):\n    return [type(v).__name__, len(v)]\n"
+                "def first(v):\n    return [type(x).__name__ for x in v][:1]\nprint(set, range, frozenset, bytearray)\n",
+                [('kind', ['[set()]', '[{1, 2}]', '[range(3)]', '[frozenset([1])]', "[bytearray(b'ab')]", '[{1: set()}]', '[[range(2)]]', '[(frozenset(), 1)]']),
+                 ('first', ['[[set()]]', '[[range(1)]]', "[{'k': bytearray(b'')}]"])]))
     out.append(('any-value-passed-through', "def ident(v):\n    return v\ndef kind(v):\n    return type(v).__name__\ndef both(v, w=None):\n    return [kind(v), kind(w)]\n",
                 [('ident', [a for _, a in HOSTILE_ARGS]), ('kind', [a for _, a in HOSTILE_ARGS]), ('both', ["[object(), 5]", "[3, len]"])]))
     out.append(('failure-in-a-method-chain', "class Node:\n    def __init__(self, nxt):\n        self.nxt = nxt\n    def depth(self):\n        if self.nxt is None:\n"
